@@ -60,9 +60,11 @@ CLAIMED = {
             "tables built by the real code equal RFC Appendix A cell by cell; F3 (Verus, unbounded): description reader - range, sum == 2^al, termination; "
             "Q2 (Verus): stepping stays inside a well-formed table, all bits consumed; F6 (Kani, bounded): encoder normalisation yields a valid distribution. "
             "F2 (table construction for arbitrary distributions) and F5 (encoder tables == decoder tables) are NOT proved and are listed as assumptions.", "DESIGN.md 4 C12, Part II 9"),
-    "C13": ("proof", "L1 (Verus, unbounded): Huffman stepping stays inside a well-formed table, every literal consumes >= 1 bit (termination), stream split / jump table "
-            "arithmetic never panics, exactly regenerated_size literals; HU1/HU2 (Kani, BOUNDED: 3 weights <= 3; 1..=9 direct weights): rejection clauses and canonical "
-            "table of RFC 4.2.1. The encoder side (HU4: prefix code, depth <= 11, description round trip) is not under contract.", "DESIGN.md 4 C13"),
+    "C13": ("proof", "Decoder side complete and unbounded in Verus on verbatim bodies: HU2V (read_weights: direct and FSE-compressed descriptions, no panic, termination, "
+            "bytes used <= source, direct weights = nibbles), HU1V (build_table_from_weights for EVERY weight vector: Kraft assert, rejection of weights > 11 and "
+            "of tables deeper than 11 bits, table well-formed: 2^max_bits cells each with 1..=max_bits bits), L1 (stepping stays inside the table, every literal "
+            "consumes >= 1 bit, stream split / jump table arithmetic, exactly regenerated_size literals). The encoder side (HU4: prefix code, depth <= 11, "
+            "description round trip) is not under contract; E8 covers the literals header widths and table hand-back.", "DESIGN.md 4 C13, Part II"),
     "C14": ("proof", "Finite, loop-free functions (code tables, repeat-offset machine, block/frame/literals/sequence headers) are "
                      "proved against RFC-transcribed spec functions over their entire input domains by Kani contracts; encoder/decoder "
                      "inverse pairs are two-contract lemmas; E8 (Verus) literals-header field widths on the encoder side.", "DESIGN.md 3.2, 4 C14"),
